@@ -46,6 +46,11 @@ func vC20Scenario() {
 	vAssume(!partial || silent)
 	blockWrite := vBool("peernotreading") // a silent peer that does not even read the request
 	vAssume(!blockWrite || (silent && !partial))
+	// a wss dial: TLS on top of the connection (default tls.Client).  With peers that never answer
+	// the client's hello the TLS handshake is the write and the read that block
+	useTLS := vBool("tls")
+	vAssume(!useTLS || (silent && !partial))
+	vTLSShaken = false
 	refuse := vBool("refusepeer") // the peer answers 400: a handshake failure that is not a timeout
 	vAssume(!(silent && refuse))
 	cancelAt := vInt("cancelat")                 // cancel right before connection operation #cancelAt (-1: never)
@@ -117,7 +122,11 @@ func vC20Scenario() {
 	var err error
 	var got net.Conn
 	vCallBounded("dial.returns_once_context_or_timeout_ends", func() {
-		got, _, _, err = d.Dial(ctx, "ws://example.com/")
+		u := "ws://example.com/"
+		if useTLS {
+			u = "wss://example.com/"
+		}
+		got, _, _, err = d.Dial(ctx, u)
 	}, func() {
 		if root != nil {
 			root.cancel(context.Canceled)
